@@ -93,7 +93,7 @@ def check(run, F, tier):
             r1.violation(skey, "%s: %s" % (skey, rec["why"]), conn.path_summary(rec["p"]), site="%s:%s" % (rec["site"][0].split("::")[-1], rec["site"][1]))
 
     # ------------------------------------------------------------------ R2
-    r2 = run.rule("C08-R2", "matched acknowledgements complete the exchange and release the id", floor=9)
+    r2 = run.rule("C08-R2", "matched acknowledgements complete the exchange and release the id", floor=7)
     for (ver, kind), f in sorted(recvh.items()):
         if kind not in ("puback", "pubcomp", "suback", "unsuback", "pubrec"):
             continue
@@ -148,7 +148,7 @@ def check(run, F, tier):
             r2.ok(key, {"matched_paths": cnt})
 
     # ------------------------------------------------------------------ R3
-    r3 = run.rule("C08-R3", "a refused id-carrying send releases the id (except PacketIdentifierInvalid)", floor=6)
+    r3 = run.rule("C08-R3", "a refused id-carrying send releases the id (except PacketIdentifierInvalid)", floor=5)
     for (ver, kind), f in sorted(sendh.items()):
         if kind not in ("publish", "subscribe", "unsubscribe"):
             continue
